@@ -38,6 +38,13 @@ class Palette:
 
     # ---------------------------------------------------------------- ids
     def id(self, tok):
+        if "~" in tok:
+            # "<id>~<suffix>": the concrete image of <id> extended by <suffix> (an unknown ID that has
+            # a known ID as a prefix)
+            base, suf = tok.split("~", 1)
+            c = self.id(base) + suf
+            self._ids[c] = tok
+            return c
         c = tok if self.idmap is None else self.idmap(tok)
         self._ids[c] = tok
         return c
